@@ -25,6 +25,7 @@ type c07Case struct {
 	Constraints  []hx.MConstraint `json:"constraints"` // a root entry "@ROOTIDS@" stands for all layout root ids
 	Flip         string           `json:"flip"`
 	E2E          bool             `json:"e2e"`
+	SigChain      []string        `json:"sig_chain,omitempty"` // certificates appended to the link signature's cert member
 	Bundle        string          `json:"bundle,omitempty"` // the caller's intermediates as one PEM chain file: forward | reverse
 	NoLayoutRoots bool            `json:"no_layout_roots,omitempty"` // the layout lists no root CA at all (the CA sits in the machine's trust store only)
 	RootsForm    string           `json:"roots_form"` // star | empty | nil : root list of EVERY constraint
@@ -275,7 +276,7 @@ func c07Gen(t *rapid.T) c07Case {
 	}
 	// at most one flip
 	c.Flip = rapid.SampledFrom([]string{"none", "none", "none", "leaf-expired", "leaf-notyet", "inter-expired", "root-expired", "inter-missing", "inter-moved-to-nowhere",
-		"root-foreign", "inter-nonca", "issuer-foreign", "attr-subset", "attr-superset", "attr-disjoint", "attr-must-be-empty", "dup-value", "dup-short", "dup-short", "no-constraints", "roots-other", "roots-exact", "bad-only"}).Draw(t, "flip")
+		"root-foreign", "inter-nonca", "issuer-foreign", "attr-subset", "attr-superset", "attr-disjoint", "attr-must-be-empty", "dup-value", "dup-short", "dup-short", "no-constraints", "roots-other", "roots-exact", "bad-only", "leaf-selfsigned-critical", "inter-only-in-signature", "inter-only-in-signature"}).Draw(t, "flip")
 	good := &c.Constraints[goodIdx]
 	pickAttr := func() (*[]string, *[]string) {
 		switch rapid.IntRange(0, 3).Draw(t, "attr") {
@@ -299,6 +300,19 @@ func c07Gen(t *rapid.T) c07Case {
 		}
 	case "root-expired":
 		c.PKI.Certs[0].Validity = rapid.SampledFrom([]string{"expired", "notyet"}).Draw(t, "rootval")
+	case "leaf-selfsigned-critical":
+		// nobody issued this certificate, and it carries a critical extension that no verifier knows
+		leaf.Issuer, leaf.Critical = "", true
+	case "inter-only-in-signature":
+		// the intermediate is neither in the layout nor handed over by the caller: the signer ships it
+		// inside the signature's certificate member (end-to-end part)
+		if nInter > 0 {
+			drop := fmt.Sprintf("i%d", rapid.IntRange(0, nInter-1).Draw(t, "shipinter"))
+			c.LayoutInters = remove(c.LayoutInters, drop)
+			c.CallerInters = remove(c.CallerInters, drop)
+			c.SigChain = []string{drop}
+			c.E2E = true
+		}
 	case "inter-missing", "inter-moved-to-nowhere":
 		if nInter > 0 {
 			drop := fmt.Sprintf("i%d", rapid.IntRange(0, nInter-1).Draw(t, "dropinter"))
@@ -592,7 +606,7 @@ func c07Run(c c07Case, r *hx.Rec) error {
 	w := hx.World{Entry: "cwd", PKI: c.PKI, Intermediates: c.CallerInters, BundleIntermediates: c.Bundle, Product: []hx.WFile{{Path: "out", Content: "x"}},
 		Layout:       hx.WMetaFile{Name: "root.layout", Wrapper: c.Wrapper, Meta: hx.MMeta{Layout: &lay}, Sigs: []hx.WSig{{Key: "ed25519-1"}}},
 		VerifierKeys: []hx.WKey{{Key: "ed25519-1"}},
-		Links:        []hx.WMetaFile{{Name: hx.LinkFileName("build", certs[c.Leaf].Key.KeyID), Wrapper: "legacy", Meta: hx.MMeta{Link: &link}, Sigs: []hx.WSig{{Key: "pki:" + c.Leaf, WithCert: true}}}}}
+		Links:        []hx.WMetaFile{{Name: hx.LinkFileName("build", certs[c.Leaf].Key.KeyID), Wrapper: "legacy", Meta: hx.MMeta{Link: &link}, Sigs: []hx.WSig{{Key: "pki:" + c.Leaf, WithCert: true, Chain: c.SigChain}}}}}
 	if c.Second == "accept-before" || c.Second == "accept-after" {
 		// another step for which the same certificate is an authorised functionary (wildcard constraint)
 		other := hx.MStep{Type: "step", Name: "other", ExpMat: [][]string{{"ALLOW", "*"}}, ExpProd: [][]string{{"ALLOW", "*"}}, PubKeys: []string{}, ExpCommand: []string{}, Threshold: 1,
